@@ -290,7 +290,12 @@ func (p *Parser) ParseMultiple(aligns *align.AlignChannel) {
 		aligns.Achan <- al
 		al, err = p.Parse()
 	}
-	aligns.Err = err
+	// The error is only written when there is one: the commands that use the first
+	// alignment only read aligns.Err while this function may still be running
+	// (writing nil over nil was a data race with these reads)
+	if err != nil {
+		aligns.Err = err
+	}
 
 	close(aligns.Achan)
 }
